@@ -48,6 +48,7 @@ class SimTLSSocket:
         self.server_hostname = server_hostname
         self._handshaken = False
         self._eof = False
+        self._raw = bytearray()
         if do_handshake_on_connect:
             try:
                 self.do_handshake()
@@ -63,15 +64,29 @@ class SimTLSSocket:
             self._sock.sendall(data)
 
     def _fill(self, what):
+        """Read from the socket exactly what OpenSSL would (read-ahead is off by default): the 5-byte
+        record header, then the record body - never beyond the current record, so that ciphertext of a
+        following record stays visible to select() on the socket, as with a real SSLSocket."""
+        raw = self._raw
+        if len(raw) < 5:
+            want = 5 - len(raw)
+        else:
+            want = 5 + int.from_bytes(raw[3:5], "big") - len(raw)
         try:
-            data = self._sock.recv(16384)
+            data = self._sock.recv(want)
         except TimeoutError:
             raise TimeoutError(f"The {what} operation timed out") from None
         if data == b"":
             self._eof = True
+            if raw:
+                self._inc.write(bytes(raw))
+                del raw[:]
             self._inc.write_eof()
             return False
-        self._inc.write(data)
+        raw += data
+        if len(raw) >= 5 and len(raw) >= 5 + int.from_bytes(raw[3:5], "big"):
+            self._inc.write(bytes(raw))
+            del raw[:]
         return True
 
     def do_handshake(self):
